@@ -64,6 +64,10 @@ def units(tier):
         for dn in (["dn"] if "dn" not in f else ["dn", "DN", "Dn", "dN"]):
             add(f"ext_{f}_{dn}", ["ext_" + f], dn=dn, pieces=["n", "e"])
         add(f"ext_{f}_a2", ["ext_" + f], alen=2)
+        if f in ("ardn", "rdn"):
+            # a matching rule whose short name is literally "dn", after the dn keyword
+            for rt in ("dn", "DN", "dN"):
+                add(f"ext_{f}_rule_{rt}", ["ext_" + f], dn="Dn", rule_text=rt)
     trees = {
         "and1": ["and", [["eq"]]],
         "and2": ["and", [["eq"], ["present"]]],
@@ -202,7 +206,7 @@ def gen(g, F, spec, sp, top=True):
         dn = f.endswith("dn")
         core = f[:-2] if dn else f
         a = g.attr() if "a" in core else None
-        r = g.attr(rule=True) if "r" in core else None
+        r = (g.shape.get("rule_text") or g.attr(rule=True)) if "r" in core else None
         vt, vo = g.value()
         text = "(" + (a if a is not None else "") + ((":" + g.shape["dn"]) if dn else "") + ((":" + r) if r is not None else "") + ":=" + vt + ")"
         obj = F.FilterExtensibleMatch(r, a, vo, dn)
